@@ -10,6 +10,7 @@ ENTRY = {
                    "include size thresholds (fan-out 16-78, 8-40 nested prefixes, 8-32 parameters) and requests in which a wildcard captures '.' or '..'.",
         level_note="Sporadic allocations (fewer than one per request) are counted but not attributed to the router (other goroutines of the test binary may allocate); "
                    "requests answered by redirect/404/405 are out of scope of the property and excluded by construction.",
+        level_more='Later additions: look-ups through a long-lived read-only transaction, one pattern under up to eleven verbs, and mixed-traffic rounds (all judged requests of a case one after the other, ServeHTTP and Reverse), so that per-request caches keyed on the previous request show.',
         rule="cases: (options, route set, served request); non-trivial = the serving route has a wildcard, or a hostname route / hostname fallback was involved, or the "
              "reference backtracked, or a trailing slash was ignored; distinct by (options, method, sorted patterns, host, path)",
         assumptions=["the handler and the writer used do not allocate", "steady state = after 5 warm-up requests on the same tree"],
